@@ -83,6 +83,11 @@ PROPS = {
         note="Partial: importlib itself (finder protocol, sys.modules, parents-first import) is modelled, not verified; md5 is modelled as injective.",
         technique="Lean 4 proof (invariant over import histories; component-prefix characterisation) + differential run on generated package forests",
     ),
+    "C15": dict(
+        text="Kernel-checked theorems about the model of __getitem__ / _make_array / _check_scalar: D2[D1[A,s1],s2] has, for every check, exactly the array type, dtypes, axes and multi-axis index of (D1 & D2)[A, s2 + ' ' + s1] - at any nesting depth, errors included - and is an error exactly when the outer string is malformed, both dtype lists share nothing, or both parts have a multi-axis specifier; D1 & D2 accepts exactly the dtypes both accept; D[Union[...], s] accepts exactly what the union of the member annotations accepts (members that do not exist drop out; error iff a member is an error of its own or none exists), for any check of a single annotation; a TypeVar stands for its bound / the union of its constraints / Any; a scalar type survives exactly when a rank-0 value passes the rank test of the parsed specification and the category holds a dtype with the scalar's prefix; the scalar ladder, the nesting assignments and the alias definitions re-extracted from the current source equal the modelled / documented ones (decide). On the real code: every ordered pair of 37 categories x dim-string pairs, unions / X|Y / TypeVars / seven scalar types x categories x dim strings: what was built against the model, and both sides of each law evaluated over 281 probe values; Scalar / ScalarLike / PRNGKeyArray against their documented definitions on JAX values.",
+        note="Categories listing regular expressions are a DESIGN §6 zone under nesting (specifier intersection; no claim). A TypeVar inside a Union and generic aliases as array types are outside the model. typing.get_args / Union flattening and typeguard's 'some member accepts' are trusted.",
+        technique="Lean 4 proof (nesting = flat annotation via the parser's concatenation law; union / scalar characterisations) + exhaustive category-pair differential run and direct law evaluation",
+    ),
     "C16": dict(
         text="Kernel-checked theorems: the memo key of a '?name' axis at leaf i of structure string T is distinct from the plain axis and from every other (i, T, name) - also after rendering to the string the memo shows; an array check at '?'-position tp reads and writes only plain keys and keys of that position (frame theorem for _check_shape: other leaf positions and other structure strings never influence it nor change), so with the C02 satisfiability theorem over keys: same position must agree, different positions are independent; '?' outside a structured PyTree or beneath two raises AnnotationError; leaf types built from arrays, classes, tuples, unions and structure-less PyTrees hand the two flags through unchanged given the re-entrant protocol extracted from the source, and each protocol fact is shown to matter. On the real code: pairs of trees with per-leaf sizes equal / different at the same and at different positions, 10 leaf-type shapes, contexts and decorated calls (new and old style), a second structure name, the error cases; verdicts and bindings against the model.",
         note="jax.tree_util flatten order gives the leaf index; modelled and compared. The structure string is assumed free of ')' for the rendered-key theorem (it is a sequence of identifiers and '...').",
@@ -92,6 +97,11 @@ PROPS = {
         text="Kernel-checked theorems about the model of the loader's bytecode cache: with the cache-name patch confined to get_code (fact re-extracted from the current source and decided, as is the presence of the typechecker hash in the tag), the invariant 'every entry is what its tag says' holds for every reachable cache and every load of every run of every history (any hooked subsets, typecheckers, nested import orders, source edits) executes the code the current source and configuration call for; tags of different configurations never collide; with the patch spanning exec_module a two-run history provably executes stale code (the repaired defect F1). On the real code: histories of 2-4 fresh interpreter runs over one cache directory with bytecode writing enabled, modules with nested imports, hooked subsets / typecheckers / source edits varied; per module: instrumented?, by which checker, current source?",
         note="Partial: the file system, mtime/size validation of pyc files and importlib's SourceLoader are modelled (version number = what the validation compares), not verified.",
         technique="Lean 4 proof (cache invariant by induction over histories of runs; extracted patch-scope fact) + multi-run subprocess histories",
+    ),
+    "C20": dict(
+        text="Kernel-checked theorems about the model of the copyreg reducer and of what the loading process does with its output: for every annotation that can be built (flat or nested to any depth; well-formedness is shown to be preserved by every construction) the reconstruction exists and has the same array type, effective dtypes, axes and multi-axis index - hence accepts exactly the same values whatever the check is - is again well-formed and keeps its category; by-value pickling (cloudpickle on the dynamically created class) returns the annotation attribute for attribute given that the identity-compared sentinels pickle as references to their module-level names; both facts (reducer hands the effective dtypes over; sentinels pickle by reference) are re-extracted from the current source and decided, and each is shown to matter (Shaped[Float[A,'a'],'b'] comes back accepting every dtype; any-dtype / '_' / '...' annotations come back uninterpretable). On the real code: generated annotations (37 categories incl. importable user-defined ones, classes / subclasses / Any / unions / 1-3 levels of nesting, 13 dim strings) through pickle protocols 2 and 5, cloudpickle, copy, deepcopy in-process and pickle / cloudpickle into a fresh interpreter: acceptance vectors over 281 probe values of the original before and after and of every reconstruction, and the rebuilt attributes against the model.",
+        note="pickle / cloudpickle / copy protocols (classes and functions by reference, cloudpickle's class tracker) are trusted. Two genuine defects found by this check were repaired (nested dtypes lost by the reducer; object() sentinels not surviving by-value pickling).",
+        technique="Lean 4 proof (reduce/rebuild round trip via re-parsing invariance of the stored string; by-value route with sentinel identity) + multi-route, multi-process differential run",
     ),
 }
 
